@@ -84,6 +84,7 @@ func (s *snapshot) getParts(dst []*part, cache storage.Cache, minTimestamp, maxT
 }
 
 func (s *snapshot) incRef() {
+	verifPause("snapshot-incref")
 	atomic.AddInt32(&s.ref, 1)
 	verifSnapshotRef(s, 1, 0)
 }
